@@ -68,6 +68,7 @@ class Ctx:
         self.both = both
         self.notes = []
         self.frame_writes = []
+        self._formula_samples = 0
 
     # ---- branching
     def fork(self, options, label=""):
@@ -118,6 +119,14 @@ class Ctx:
         if isinstance(goal, bool):
             goal = z3.BoolVal(goal)
         status, backend, model, secs = self.solver.prove(goal, both=self.both)
+        if backend not in ("simplifier",) and self._formula_samples < 2:
+            # keep the text of a few verification conditions per path as evidence samples
+            self._formula_samples += 1
+            try:
+                pc_txt = "; ".join(str(f) for f in self.solver.pc[-4:])
+                detail = (detail + " | " if detail else "") + f"VC: [{pc_txt[:300]}] => {str(z3.simplify(goal))[:300]}"
+            except Exception:
+                pass
         ob = Obligation(name, kind, site, status, backend, secs, model_to_dict(model), detail)
         self.obligations.append(ob)
         return ob
